@@ -447,6 +447,8 @@ class FieldValueComponentTimeDelta(FieldValueComponentKeyValueBase):
             return value
         if isinstance(value, datetime.timedelta):
             return cls(value)
+        if isinstance(value, float) and not value.is_integer():  # the component is written as whole seconds
+            raise InvalidValue(value, cls, 'value')
 
         return cls(datetime.timedelta(seconds=value))
 
